@@ -145,6 +145,15 @@ func (c *Ctx) Eval(n int64) {
 	c.mu.Unlock()
 }
 
+func maxViolations() int {
+	if v := os.Getenv("VERIF_MAXVIOL"); v != "" {
+		if n, err := strconv.Atoi(v); err == nil {
+			return n
+		}
+	}
+	return 40
+}
+
 func hash64(s string) uint64 {
 	h := fnv.New64a()
 	h.Write([]byte(s))
@@ -232,7 +241,7 @@ func (c *Ctx) Violate(sig, detail string, caseIdx int, input any) {
 			return
 		}
 	}
-	if len(c.violations) < 40 {
+	if len(c.violations) < maxViolations() {
 		if len(detail) > 4000 {
 			detail = detail[:4000] + "…"
 		}
